@@ -31,8 +31,8 @@ for mp in sorted(glob.glob(os.path.join(VERIF, 'seeded', '*', 'meta.json'))):
     summ = re.sub(r'\s+', ' ', summ).replace('|', '/')
     out.append('| %s | %s | %s | %s |' % (m['id'], summ, ' '.join(m.get('detected_by', [])), ' '.join(m.get('missed_by', []))))
 out.append("""
-Seven of the 30 seeds were first **missed** by the check of their own property; each led to a stronger check (all 30 are
-caught now, and the unchanged tree still passes):
+Nine of the 40 seeds were first **missed** by the check of their own property; each led to a stronger check (all 40 are
+caught now, and the unchanged tree still passes, also for VERIF_SEED 2, 3 and 4):
 * `C11-s1` - C11 built twins only from fragments written with the standard CRC. The generator now varies the writer and
   reader value of `LIBERASURECODE_WRITE_LEGACY_CRC` (C12 varies the writer as well).
 * `C15-s1` - C15 used guard pages only for <= 2 erasures at the end of a history. It now also sweeps every flat-XOR table x
@@ -49,6 +49,11 @@ caught now, and the unchanged tree still passes):
 * `C18-s2` - concurrent decodes lost only one fragment. The TSan workloads now draw erasure sets up to the tolerance and,
   for flat-XOR hd=4, the all-data triples that no parity isolates (computed from the golden equations); a scenario in
   which every thread decodes through one shared hd=4 descriptor is generated in a quarter of the cases.
+* `C04-s2` - a non-reentrant "speed-up" that only misbehaves under concurrent encodes of large payloads. C18's TSan
+  workloads used payloads of a few bytes; one draw in eight is now 1.4-2.8 KiB per fragment, and C04 gained a mode that
+  compares parity with the closed form while 2-6 threads encode at once.
+* `C10-s2` - the repair-time value of the legacy-CRC switch was always the encode-time value. It is now drawn
+  independently (`recenv`), and the expected CRC variant of a reconstructed fragment follows the repair-time value.
 * `C20-s2` - every C20 case used fresh buffers. A third of the cases now validate fragments in place first, then damage
   (or heal) the *same* buffers before `decode(force=1)`.
 Entries under "tried, not caught" are other properties' checks run against the same change out of curiosity.
